@@ -30,3 +30,38 @@ func (c *Conn) SendKeyUpdate(requestPeer bool) error {
 	c.out.setTrafficSecret(cs, QUICEncryptionLevelInitial, newSecret)
 	return nil
 }
+
+// WriteEmptyRecords sends n zero-length application_data records in one transport write
+// (a flood of records that are individually legal).
+func (c *Conn) WriteEmptyRecords(n int) error {
+	c.out.Lock()
+	defer c.out.Unlock()
+	vers := c.vers
+	if vers == VersionTLS13 {
+		vers = VersionTLS12
+	}
+	var buf []byte
+	for i := 0; i < n; i++ {
+		rec := []byte{byte(recordTypeApplicationData), byte(vers >> 8), byte(vers), 0, 0}
+		rec, err := c.out.encrypt(rec, nil, c.config.rand())
+		if err != nil {
+			return err
+		}
+		buf = append(buf, rec...)
+	}
+	_, err := c.write(buf)
+	return err
+}
+
+// SendRawHandshake sends pre-marshaled handshake message bytes under the current keys (a
+// well-keyed peer sending an unexpected message).
+func (c *Conn) SendRawHandshake(data []byte) error {
+	c.out.Lock()
+	defer c.out.Unlock()
+	_, err := c.writeRecordLocked(recordTypeHandshake, data)
+	return err
+}
+
+// HostileInner, if set, rewrites the encoded inner ClientHello of the reference client before it
+// is HPKE-sealed: the server then decrypts a hostile inner hello (process-global; set per world).
+var HostileInner func(encodedInner []byte) []byte
